@@ -21,13 +21,21 @@
     the merged list `Abs.merge` with the tags of `Abs.tagged` (refinement `diffCols2_names`, Proofs/MergeRefine.lean), so
     the ADD / DROP COLUMN statements printed for the diffed table turn the old column order into the new one.
 
-  Missing for `Statement_partial`: the attribute / index / foreign-key lemmas (L-elem) and the lift from one table's
-  column names to the whole reference-engine schema.  Those parts are covered by the correspondence run and
+  * `columns_from_scripts` — **from scripts to printed statements**: for two scripts of any length (vocabulary without
+    RENAME COLUMN / RENAME INDEX / COMMENT ON) that the reference engine accepts, loaded by the MySQL reader model and
+    diffed by `Migration.Diff`, every table present on both sides with order-compatible columns has a diffed record on
+    which `Arrange` is the identity and for which `MigrationColumnUp` prints exactly the walk whose ADD / DROP COLUMN
+    statements turn the *reference engine's* old column order into the *reference engine's* new one (composition of
+    the reader ↔ engine simulation C05.names_and_positions, the loop refinement and the walk refinement).
+
+  Missing for `Statement_partial`: the attribute / index / foreign-key lemmas (L-elem), i.e. everything a migration says
+  beyond the order and presence of columns.  Those parts are covered by the correspondence run and
   by the executable predicate `Spec.c01` evaluated on the implementation's printed migration on every check.
 -/
 import SqlizeModel.Abs.Columns
 import SqlizeModel.Proofs.WalkRefine
 import SqlizeModel.Proofs.MergeRefine
+import SqlizeModel.Proofs.EndToEnd
 import SqlizeModel.Impl.Api
 import SqlizeModel.Spec.Scope
 
@@ -70,6 +78,36 @@ theorem diffed_columns (g : Globals) (hio : g.ignoreOrder = false) (hd : g.diale
     (h2 : Table.diffCols2 (d == .mysql) { t with cols := cols1 } [] old.cols = .ok t1) :
     Abs.execAll old.colNames ((Table.walkCols g tb true [] t1.cols).1.filterMap colStmt) = some t.colNames :=
   (Table.diffed_columns g hio hd tb d t old t1 cols1 h hold hp hadd holdAdd hne hc h1 h2).1
+
+/-- column clause of C01 from scripts to printed statements (MySQL reader model, default field order) -/
+theorem columns_from_scripts (g : Globals) (hg : g.dialect = .mysql) (hio : g.ignoreOrder = false) (rc : Bool)
+    (old new : List Stmt) (dbO dbN : DB) (ho : old.all Stmt.colSafe = true) (hn : new.all Stmt.colSafe = true)
+    (heo : execAll rc [] old = some dbO) (hen : execAll rc [] new = some dbN)
+    (d : Migration) (hd : loadAndDiff g old new = .ok d)
+    (t : String) (tbO tbN : TableSpec) (hfo : dbO.find t = some tbO) (hfn : dbN.find t = some tbN)
+    (hc : Abs.OrderCompatible tbN.colNames tbO.colNames) (hne : ∀ n ∈ tbN.colNames ++ tbO.colNames, n ≠ "") :
+    ∃ td ∈ d.tables, td.name = t ∧ td.arrange = .ok td ∧
+      td.migrationColumnUp g = .ok (Table.walkCols g t true [] td.cols) ∧
+      Abs.execAll tbO.colNames ((Table.walkCols g t true [] td.cols).1.filterMap colStmt) = some tbN.colNames := by
+  obtain ⟨td, hm, hn', _, ha, hup, _, hex, _⟩ :=
+    columns_end_to_end g hg hio rc old new dbO dbN ho hn heo hen d hd t tbO tbN hfo hfn hc hne
+  exact ⟨td, hm, hn', ha, hup, hex⟩
+
+-- non-vacuity of `columns_from_scripts`: two scripts with histories (positional add, drop, modify) meeting every hypothesis
+def exOldS : List Stmt :=
+  [.createTable "t" 0 [{ name := "a", typ := "int(11)" }, { name := "x", typ := "int(11)" }] [],
+   .addColumn "t" { name := "d", typ := "text" } (.after "a")]
+def exNewS : List Stmt :=
+  [.createTable "t" 0 [{ name := "a", typ := "int(11)" }, { name := "b", typ := "int(11)" }] ["a"],
+   .addColumn "t" { name := "z", typ := "text" } .first,
+   .addColumn "t" { name := "d", typ := "longtext" } .none]
+example : exOldS.all Stmt.colSafe = true ∧ exNewS.all Stmt.colSafe = true := by decide
+example : (execAll true [] exOldS).map specView = some [("t", ["a", "d", "x"])] ∧
+    (execAll true [] exNewS).map specView = some [("t", ["z", "a", "b", "d"])] := by decide
+example : Abs.OrderCompatible ["z", "a", "b", "d"] ["a", "d", "x"] := by unfold Abs.OrderCompatible; decide
+example : ∃ d, loadAndDiff {} exOldS exNewS = .ok d ∧
+    (d.tables.map (fun t => (Table.walkCols {} t.name true [] t.cols).1.filterMap colStmt)) =
+      [[.addCol "z" none, .addCol "b" (some "a"), .dropCol "x"]] := ⟨_, by rfl, by rfl⟩
 
 -- non-vacuity of `diffed_columns`: two tables built by the primitives (hence consistent), with a kept, a dropped and
 -- two added columns; the loops succeed and the printed statements are non-trivial
